@@ -29,7 +29,7 @@ META = {
 
 OPERANDS = [["lit", "a"], ["lit", "b.c"], ["lit", "x-y=1"], ["wild", "a.*"], ["wild", "?x"], ["wild", "[ab]c"]]
 UNIVERSE = ["a", "b.c", "x-y=1", "a.x", "a.", "ax", "A.x", "A", "zx", "x", "ac", "bc", "cc", "zzz"]
-RENDERINGS = ["min", "at", "allparens", "spaces", "list", "list-at"]
+RENDERINGS = ["min", "at", "allparens", "spaces", "list", "list-at", "list-parens"]
 
 
 def tagset(sx, universe, prefix="has:"):
@@ -50,6 +50,16 @@ def render(tree, how):
         return "  " + T.render_v2(tree, space="  ") + " "
     if how == "list":
         return T.render_v2_list(tree)
+    if how == "list-parens":
+        # list-of-terms form whose terms have every operand parenthesised: "(a) or (b)", "not (a)"
+        terms = tree[1:] if tree[0] == "and" else [tree]
+        out = []
+        for t in terms:
+            txt = T.render_v2(t, parens="all")
+            if t[0] in ("and", "or") and txt.startswith("(") and txt.endswith(")"):
+                txt = txt[1:-1]
+            out.append(txt)
+        return out
     return T.render_v2_list(tree, at=True)
 
 
@@ -65,7 +75,9 @@ def trees_for(tier, seed):
         extra = d2 + rnd.sample(big, 600)
     fixed = [["and", ["or", ["lit", "a"], ["wild", "[ab]c"]], ["not", ["lit", "b.c"]]],
              ["not", ["wild", "[ab]c"]], ["or", ["and", ["lit", "a"], ["not", ["wild", "?x"]]], ["lit", "x-y=1"]],
-             ["not", ["not", ["lit", "a"]]], ["and", ["lit", "a"], ["lit", "b.c"], ["wild", "a.*"]]]
+             ["not", ["not", ["lit", "a"]]], ["and", ["lit", "a"], ["lit", "b.c"], ["wild", "a.*"]],
+             ["and", ["or", ["lit", "a"], ["lit", "b.c"]], ["not", ["lit", "x-y=1"]]],
+             ["and", ["or", ["and", ["lit", "a"], ["lit", "zzz"]], ["and", ["lit", "b.c"], ["lit", "zzz"]]], ["lit", "x"]]]
     return base + fixed + extra
 
 
